@@ -252,6 +252,9 @@ def _selection(draw, fft, tier):
                         max_size=fft + (3 if dup else 0), unique=not dup))
     if dup:     # make sure at least one carrier really is repeated
         idx = idx + [idx[draw(st.integers(0, len(idx) - 1))]]
+    if _p(draw, 0.25):
+        # carriers counted from the end, numpy style (np.r_[-26:0, 1:27])
+        idx = [i - fft if draw(st.booleans()) else i for i in idx]
     return dict(kind="index", idx=idx,
                 as_=draw(st.sampled_from(["list", "array"])))
 
@@ -332,6 +335,7 @@ def _single_case(draw, tier, part):
                         wrap in ("su", "sumimo")))
     return dict(part=part, profile=prof, fading=fad, ant=ant, wrap=wrap,
                 pass_Ts=draw(st.booleans()), np_seed=draw(seeds), ops=ops,
+                default_gen=draw(st.booleans()),
                 alpha=draw(_cplx()), beta=draw(_cplx()))
 
 
@@ -634,6 +638,7 @@ class _Single(object):
 
     def __init__(self, case):
         from pyphysim.channels import fading, fading_generators, singleuser
+        self.case = case
         prof, fad = case["profile"], case["fading"]
         Ts = prof["Ts"]
         p_dB, delays, cost_obj = _profile_inputs(prof, fading)
@@ -676,6 +681,12 @@ class _Single(object):
             ts_arg = Ts
             if prof["mode"] == "discretized" and not case["pass_Ts"]:
                 ts_arg = None
+            if case.get("default_gen") and (
+                    wrap == "sumimo" or (wrap == "su" and shape is None)):
+                # no generator given: the single-user channels create their
+                # default one
+                gen = None
+                self.tags["default_generator"] = True
         if wrap == "tdl":
             ch = _tagged(self.tags, fading.TdlChannel, gen, Ts=ts_arg, **kw)
         elif wrap == "tdlmimo":
@@ -714,7 +725,16 @@ class _Single(object):
             self.ch.switched_direction = bool(op["v"])
             self.switched = bool(op["v"])
         elif op["op"] == "pl":
-            self.ch.set_pathloss(op["v"])
+            v = op["v"]
+            if v is not None and v in (0.0, 1.0) and \
+                    self.case["np_seed"] % 2 == 0:
+                v = int(v)              # 'set_pathloss(1)'
+                self.tags["pathloss_python_int"] = True
+            elif v is not None and self.case["np_seed"] % 3 == 0:
+                v = np.float32(v)       # an element of a float32 array
+                op = dict(op, v=float(v))
+                self.tags["pathloss_float32"] = True
+            self.ch.set_pathloss(v)
             self.pl = op["v"]
 
 
@@ -985,8 +1005,13 @@ def _run_mu(case, variant):
         if op["op"] == "time":
             y = _tagged(tags, ch.corrupt_data, x)
         else:
-            y = _tagged(tags, ch.corrupt_data_in_freq_domain, x, op["fft"],
-                        _sel_obj(op["sel"]))
+            xarg = x
+            if n_txu >= 2 and case["np_seed"] % 3 == 0:
+                # documented: 'a list of numpy arrays', one per transmitter
+                xarg = [np.array(row) for row in x]
+                tags["signal_as_list"] = True
+            y = _tagged(tags, ch.corrupt_data_in_freq_domain, xarg,
+                        op["fft"], _sel_obj(op["sel"]))
         irs = {}
         for i in range(n_rx):
             for j in range(n_tx):
